@@ -1,20 +1,82 @@
-(* Vec/RdProofs.v — theorems about the read-path models of RdModel / RdCursor / RdComp.
-   Proved here for ALL well-formed states and ALL requests: the index-addressed raw paths
-   (collect_one_at, get_any_or_read_at, VecReader, read_ref_at, the lean clone's point read), the
-   pointer-scan source (RawMmapSource) and the paths that consist of it (fold_stored_mmap, the
-   lean clone's fold with the mmap back-end); the *_refuted witnesses of every path on which the
-   faithful model contradicts C08 / C20.  The range theorems for fold_dirty, the IO sources, the
-   cursor on hole-free states and the compressed paths are stated (Props: *_full) and not proved
-   here. *)
-From Anydb Require Import Common.Base Gen.Consts Gen.Sizes Vec.RdModel Vec.RdCursor Vec.RdComp.
+(* Vec/RdProofs.v — theorems about the raw read-path models of RdModel.
+   `good c s ys`: the stream s neither panics nor decodes bytes outside the valid data, hands exactly
+   ys to the caller, and every byte range it fetches ends at or below the region length.  One
+   statement per path therefore carries both the C08 and the C20 claim.
+   Proved here for ALL well-formed states (including stored_len above the on-disk length) and ALL
+   requests: fold_dirty / try_fold_dirty, read_into_at (memcpy, fold_source, dirty), fold_range_at,
+   try_fold_range_at, both scan back-ends (RawMmapSource, RawIoSource with its refill arithmetic),
+   collect_one_at, get_any_or_read_at, collect_holed_range, read_at_once, read_ref_at,
+   fold_stored_{io,mmap}, early exit; for the states without a pending rollback overlay: VecReader,
+   get_pushed_or_read_at and the lean clone's paths (the unrestricted statements are refuted). *)
+From Anydb Require Import Common.Base Gen.Consts Gen.Sizes Vec.RdModel.
 
 Definition wf (c : rstate) : Prop := wf_b c = true.
 Definition in_region (c : rstate) (a : acc) : Prop := fst a + snd a <= region_len c.
+Definition goodP (P : acc -> Prop) (s : stream) (ys : list N) : Prop :=
+  yields s = ys /\ clean s = true /\ Forall P (fetches s).
+Definition good (c : rstate) := goodP (in_region c).
 Definition accesses_ok (c : rstate) (s : stream) : Prop := Forall (in_region c) (fetches s).
+Definition not_expanded (c : rstate) : Prop := r_stored c <= len (r_disk c).
 
-Ltac triv := cbn; repeat split; try constructor; auto.
+Ltac triv := unfold good, goodP, accesses_ok; cbn; repeat split; try constructor; auto.
 
-(* ------------------------------------------------------------------ basics *)
+(* ------------------------------------------------------------------ streams *)
+Lemma goodP_nil (P : acc -> Prop) : goodP P [] [].
+Proof. triv. Qed.
+Lemma goodP_app (P : acc -> Prop) a b ya yb : goodP P a ya -> goodP P b yb -> goodP P (a ++ b) (ya ++ yb).
+Proof.
+  revert ya. induction a as [|e a IH]; intros ya (Y & C & F) Hb.
+  - cbn in Y. subst ya. exact Hb.
+  - destruct e; cbn in Y, C, F; try discriminate.
+    + inversion F; subst.
+      destruct (IH (yields a)) as (Y' & C' & F'); [split; [|split]; auto|auto|].
+      unfold goodP; cbn. split; [exact Y'|split; [exact C'|constructor; auto]].
+    + destruct (IH (yields a)) as (Y' & C' & F'); [split; [|split]; auto|auto|].
+      subst ya. unfold goodP; cbn. split; [now rewrite Y'|split; auto].
+Qed.
+Lemma goodP_flat_map {K} (P : acc -> Prop) (h : K -> stream) (Y : K -> list N) ks :
+  (forall k, In k ks -> goodP P (h k) (Y k)) -> goodP P (flat_map h ks) (flat_map Y ks).
+Proof.
+  induction ks as [|k ks IH]; intros H; cbn; [apply goodP_nil|].
+  apply goodP_app; [apply H; now left|apply IH; intros; apply H; now right].
+Qed.
+Lemma goodP_yields (P : acc -> Prop) l : goodP P (map Yield l) l.
+Proof. induction l as [|x l (Y & C & F)]; [triv|]. unfold goodP; cbn. split; [now rewrite Y|split; auto]. Qed.
+Lemma goodP_fetch (P : acc -> Prop) o l s ys : P (o, l) -> goodP P s ys -> goodP P (Fetch o l :: s) ys.
+Proof. intros H (Y & C & F). unfold goodP; cbn. split; [auto|split; auto]. Qed.
+Lemma goodP_eq (P : acc -> Prop) s ys ys' : ys = ys' -> goodP P s ys -> goodP P s ys'.
+Proof. now intros ->. Qed.
+Lemma goodP_weaken (P Q : acc -> Prop) s ys : (forall a, P a -> Q a) -> goodP P s ys -> goodP Q s ys.
+Proof. intros H (Y & C & F). repeat split; auto. eapply Forall_impl; eauto. Qed.
+
+Lemma run_aux_clean s : forall ya fa, clean s = true ->
+  run_aux s ya false fa = (ROk (rev ya ++ yields s), rev fa ++ fetches s).
+Proof.
+  induction s as [|e s IH]; intros ya fa C; cbn.
+  - now rewrite !rev_append_rev, !app_nil_r.
+  - destruct e; cbn in C; try discriminate; rewrite IH by auto; cbn; now rewrite <- !app_assoc.
+Qed.
+(* what `run` (the function the differential engine executes) returns for a good stream *)
+Lemma goodP_run (P : acc -> Prop) s ys : goodP P s ys -> run s = (ROk ys, fetches s).
+Proof. intros (Y & C & _). unfold run. rewrite run_aux_clean by auto. now rewrite Y. Qed.
+
+Lemma flat_map_ext_in {A B} (F G : A -> list B) l : (forall k, In k l -> F k = G k) -> flat_map F l = flat_map G l.
+Proof. induction l; cbn; intros H; auto. rewrite H by now left. f_equal. apply IHl. intros; apply H; now right. Qed.
+
+Lemma seqN_app a n m : seqN a (n + m) = seqN a n ++ seqN (a + N.of_nat n) m.
+Proof.
+  revert a; induction n; intros a.
+  - cbn [plus seqN app]. replace (a + N.of_nat 0) with a by lia. reflexivity.
+  - cbn [plus seqN app]. rewrite IHn. replace (a + 1 + N.of_nat n) with (a + N.of_nat (S n)) by lia. reflexivity.
+Qed.
+Lemma seqN_split f m t : f <= m -> m <= t ->
+  seqN f (N.to_nat (t - f)) = seqN f (N.to_nat (m - f)) ++ seqN m (N.to_nat (t - m)).
+Proof.
+  intros. replace (N.to_nat (t - f)) with (N.to_nat (m - f) + N.to_nat (t - m))%nat by lia.
+  rewrite seqN_app. do 2 f_equal. lia.
+Qed.
+
+(* ------------------------------------------------------------------ lists *)
 Lemma nth_opt_none {A} (l : list A) n : (length l <= n)%nat -> nth_opt l n = None.
 Proof. revert n; induction l; destruct n; cbn; intros; auto; try lia. apply IHl. lia. Qed.
 Lemma nth_opt_some {A} (l : list A) n : (n < length l)%nat -> exists v, nth_opt l n = Some v.
@@ -28,16 +90,96 @@ Lemma get_some {A} (l : list A) i : i < len l -> exists v, get l i = Some v.
 Proof. unfold get, len. intros. apply nth_opt_some. lia. Qed.
 Lemma get_none {A} (l : list A) i : len l <= i -> get l i = None.
 Proof. unfold get, len. intros. apply nth_opt_none. lia. Qed.
+Lemma get_some_lt {A} (l : list A) i v : get l i = Some v -> i < len l.
+Proof. intros H. destruct (N.lt_ge_cases i (len l)); auto. rewrite get_none in H by auto. discriminate. Qed.
 
+Lemma skipn_step {A} (l : list A) : forall n,
+  match skipn n l with
+  | [] => nth_opt l n = None /\ skipn (S n) l = []
+  | x :: r => nth_opt l n = Some x /\ skipn (S n) l = r
+  end.
+Proof.
+  induction l as [|a l IH]; intros n.
+  - rewrite !skipn_nil. destruct n; auto.
+  - destruct n; [cbn; auto|]. cbn [skipn nth_opt]. apply IH.
+Qed.
+Lemma drop_step {A} (d : list A) j :
+  match drop j d with
+  | [] => get d j = None /\ drop (j + 1) d = []
+  | x :: r => get d j = Some x /\ drop (j + 1) d = r
+  end.
+Proof.
+  unfold drop, get. replace (N.to_nat (j + 1)) with (S (N.to_nat j)) by lia. apply skipn_step.
+Qed.
+Lemma dra_step (d : list N) j n :
+  disk_range_aux (drop j d) (S n) = get d j :: disk_range_aux (drop (j + 1) d) n.
+Proof.
+  pose proof (drop_step d j) as H. cbn [disk_range_aux].
+  destruct (drop j d); destruct H as [-> ->]; reflexivity.
+Qed.
+
+(* ------------------------------------------------------------------ the scan lemma: every element-wise loop
+   of the read paths emits, for the index i and the decoded element o, a stream `g i o` *)
+Fixpoint scan (g : N -> option N -> stream) (i : N) (l : list (option N)) : stream :=
+  match l with [] => [] | o :: r => g i o ++ scan g (i + 1) r end.
+
+Lemma scan_good (P : acc -> Prop) g Y (d : list N) : forall n i j,
+  (forall k, (k < n)%nat -> goodP P (g (i + N.of_nat k) (get d (j + N.of_nat k))) (Y (i + N.of_nat k))) ->
+  goodP P (scan g i (disk_range_aux (drop j d) n)) (flat_map Y (seqN i n)).
+Proof.
+  induction n as [|n IH]; intros i j H; [apply goodP_nil|].
+  rewrite dra_step. cbn [scan seqN flat_map]. apply goodP_app.
+  - specialize (H O ltac:(lia)). cbn in H. now rewrite !N.add_0_r in H.
+  - apply IH. intros k Hk. specialize (H (S k) ltac:(lia)).
+    replace (i + 1 + N.of_nat k) with (i + N.of_nat (S k)) by lia.
+    replace (j + 1 + N.of_nat k) with (j + N.of_nat (S k)) by lia. exact H.
+Qed.
+Lemma scan_range_good (P : acc -> Prop) g Y (d : list N) i j t :
+  (forall k, k < t - j -> goodP P (g (i + k) (get d (j + k))) (Y (i + k))) ->
+  goodP P (scan g i (disk_range d j t)) (flat_map Y (seqN i (N.to_nat (t - j)))).
+Proof. intros H. unfold disk_range. apply scan_good. intros k Hk. apply H. lia. Qed.
+
+Lemma ptr_evs_scan c l : forall i, ptr_evs c i l = scan (fun k o => [Fetch (eoff c k) (r_sz c); ev_of o]) i l.
+Proof. induction l; intros; cbn; auto. now rewrite IHl. Qed.
+Lemma dirty_stored_scan c l : forall i, dirty_stored_evs c i l =
+  scan (fun k o => if is_hole c k then [] else match upd_get c k with
+                                               | Some u => [Yield u]
+                                               | None => [Fetch (eoff c k) (r_sz c); ev_of o] end) i l.
+Proof. induction l; intros; cbn; auto. now rewrite IHl. Qed.
+Lemma dirty_pushed_scan c l : forall i, dirty_pushed_evs c i l =
+  scan (fun k o => if is_hole c k then [] else map Yield (opt_list o)) i l.
+Proof. induction l; intros; cbn; auto. now rewrite IHl. Qed.
+Lemma map_ev_scan l : forall i, map ev_of l = scan (fun _ o => [ev_of o]) i l.
+Proof. induction l; intros; cbn; auto. now rewrite (IHl (i + 1)). Qed.
+Lemma firstn_scan (l : list N) : forall n i,
+  map Yield (firstn n l) = scan (fun _ o => map Yield (opt_list o)) i (disk_range_aux l n).
+Proof.
+  induction l as [|x l IH]; intros n i.
+  - rewrite firstn_nil. revert i; induction n; intros; cbn; auto.
+  - destruct n; cbn; auto. now rewrite (IH n (i + 1)).
+Qed.
+Lemma slice_scan (l : list N) a b i :
+  map Yield (slice a b l) = scan (fun _ o => map Yield (opt_list o)) i (disk_range l a b).
+Proof. unfold slice, take, disk_range. apply firstn_scan. Qed.
+
+(* ------------------------------------------------------------------ well-formedness *)
+Lemma wf_parts c : wf c ->
+  0 < r_sz c /\ r_sz c <= BUFFER_SIZE
+  /\ forallb (fun i => is_hole c i || match upd_get c i with Some _ => true | None => false end)
+       (seqN (len (r_disk c)) (N.to_nat (r_stored c - len (r_disk c)))) = true.
+Proof.
+  unfold wf, wf_b. intros H.
+  apply andb_prop in H as [H H3]. apply andb_prop in H as [H _]. apply andb_prop in H as [H1 H2].
+  repeat split; auto; lia.
+Qed.
 Lemma wf_sz c : wf c -> 0 < r_sz c.
-Proof. unfold wf, wf_b. intros H. apply andb_prop in H as [H _]. apply andb_prop in H as [H _]. lia. Qed.
+Proof. intros H. now apply wf_parts in H. Qed.
 
 (* R3 / R3' of DESIGN appendix B.1: a stored index that is neither deleted nor overlaid is on disk *)
 Lemma wf_on_disk c i :
   wf c -> i < r_stored c -> is_hole c i = false -> upd_get c i = None -> i < len (r_disk c).
 Proof.
-  unfold wf, wf_b. intros H Hi Hh Hu.
-  apply andb_prop in H as [_ H].
+  intros W Hi Hh Hu. apply wf_parts in W as (_ & _ & H).
   destruct (N.lt_ge_cases i (len (r_disk c))) as [|Hge]; auto.
   rewrite forallb_forall in H. specialize (H i).
   rewrite Hh, Hu in H. cbn in H.
@@ -49,147 +191,400 @@ Lemma dirty_false c : dirty c = false -> r_holes c = [] /\ r_upd c = [].
 Proof. unfold dirty. destruct (r_holes c), (r_upd c); cbn; intros; try discriminate; auto. Qed.
 Lemma clean_no_hole c i : dirty c = false -> is_hole c i = false /\ upd_get c i = None.
 Proof. intros H. apply dirty_false in H as [H1 H2]. unfold is_hole, upd_get. now rewrite H1, H2. Qed.
-
-Lemma read_elem_on_disk c i v :
-  get (r_disk c) i = Some v -> read_elem c i = [Fetch (eoff c i) (r_sz c); Yield v].
-Proof. unfold read_elem. rewrite nth_n_get. now intros ->. Qed.
+(* a state without overlays has all its stored indices on disk *)
+Lemma clean_not_expanded c : wf c -> dirty c = false -> not_expanded c.
+Proof.
+  intros W D. unfold not_expanded.
+  destruct (N.le_gt_cases (r_stored c) (len (r_disk c))) as [|H]; auto.
+  destruct (clean_no_hole c (len (r_disk c)) D) as [Hh Hu].
+  pose proof (wf_on_disk c _ W H Hh Hu). lia.
+Qed.
 
 Lemma eoff_in_region c i : i < len (r_disk c) -> eoff c i + r_sz c <= region_len c.
 Proof. unfold eoff, region_len. nia. Qed.
-
-Lemma pushed_opt c i :
-  yields (map Yield (opt_list (get (r_pushed c) (i - r_stored c)))) = opt_list (get (r_pushed c) (i - r_stored c))
-  /\ clean (map Yield (opt_list (get (r_pushed c) (i - r_stored c)))) = true
-  /\ fetches (map Yield (opt_list (get (r_pushed c) (i - r_stored c)))) = [].
-Proof. destruct (get _ _); cbn; auto. Qed.
-
-(* ------------------------------------------------------------------ get_any_or_read_at *)
-Theorem get_any_correct c i :
-  wf c -> yields (get_any c i) = opt_list (view c i) /\ clean (get_any c i) = true /\ accesses_ok c (get_any c i).
+Lemma elem_on_disk c i : i < len (r_disk c) ->
+  good c [Fetch (eoff c i) (r_sz c); ev_of (get (r_disk c) i)] (opt_list (get (r_disk c) i)).
 Proof.
-  intros W. unfold get_any, view, accesses_ok. rewrite ?nth_n_get.
-  destruct (is_hole c i) eqn:Hh; [triv|].
+  intros H. destruct (get_some _ _ H) as [v ->]. cbn. repeat split; auto.
+  constructor; [|constructor]. unfold in_region; cbn. now apply eoff_in_region.
+Qed.
+Lemma read_elem_good c i : i < len (r_disk c) -> good c (read_elem c i) (opt_list (get (r_disk c) i)).
+Proof. intros. unfold read_elem. rewrite nth_n_get. now apply elem_on_disk. Qed.
+
+Definition V (c : rstate) (k : N) : list N := opt_list (view c k).
+Definition D (c : rstate) (k : N) : list N := opt_list (get (r_disk c) k).
+
+Lemma view_stored_plain c k : k < r_stored c -> is_hole c k = false -> upd_get c k = None -> V c k = D c k.
+Proof. intros. unfold V, D, view. rewrite !nth_n_get. replace (k <? r_stored c) with true by lia. now rewrite H0, H1. Qed.
+Lemma view_pushed c k : r_stored c <= k -> is_hole c k = false -> V c k = opt_list (get (r_pushed c) (k - r_stored c)).
+Proof. intros. unfold V, view. rewrite !nth_n_get. replace (k <? r_stored c) with false by lia. now rewrite H0. Qed.
+
+Lemma expected_eq c from to :
+  expected c from to =
+  flat_map (V c) (seqN (N.min from (rlen c)) (N.to_nat (N.min to (rlen c) - N.min from (rlen c)))).
+Proof. reflexivity. Qed.
+
+(* ------------------------------------------------------------------ index-addressed paths *)
+Theorem get_any_good c i : wf c -> good c (get_any c i) (V c i).
+Proof.
+  intros W. unfold get_any, V, view. rewrite ?nth_n_get.
+  destruct (is_hole c i) eqn:Hh; [apply goodP_nil|].
   destruct (N.leb_spec (r_stored c) i) as [Hs|Hs].
-  - replace (i <? r_stored c) with false by lia.
-    destruct (pushed_opt c i) as (Y & C & F). rewrite Y, C, F. triv.
+  - replace (i <? r_stored c) with false by lia. apply goodP_yields.
   - replace (i <? r_stored c) with true by lia.
     destruct (upd_get c i) eqn:Hu; [triv|].
-    pose proof (wf_on_disk c i W Hs Hh Hu) as Hd.
-    destruct (get_some (r_disk c) i Hd) as [v Hv].
-    rewrite (read_elem_on_disk c i v Hv), Hv. cbn. repeat split; auto.
-    constructor; [|constructor]. unfold in_region; cbn. now apply eoff_in_region.
+    apply read_elem_good. now apply wf_on_disk.
 Qed.
-
-(* ------------------------------------------------------------------ collect_one_at (raw, read-write) *)
-Theorem collect_one_correct c i :
-  wf c ->
-  yields (collect_one_at c i) = opt_list (expected_one c i)
-  /\ clean (collect_one_at c i) = true /\ accesses_ok c (collect_one_at c i).
+Theorem collect_one_good c i : wf c -> good c (collect_one_at c i) (opt_list (expected_one c i)).
 Proof.
   intros W. unfold collect_one_at, expected_one.
   destruct (N.leb_spec (rlen c) i) as [Hl|Hl].
-  - replace (i <? rlen c) with false by lia. triv.
+  - replace (i <? rlen c) with false by lia. apply goodP_nil.
   - replace (i <? rlen c) with true by lia.
-    destruct (dirty c) eqn:Hd; [now apply get_any_correct|].
+    destruct (dirty c) eqn:Hd; [now apply get_any_good|].
     destruct (clean_no_hole c i Hd) as [Hh Hu].
-    pose proof (get_any_correct c i W) as G. unfold get_any in G. rewrite Hh, Hu in G. exact G.
+    pose proof (get_any_good c i W) as G. unfold get_any in G. rewrite Hh, Hu in G. exact G.
 Qed.
-
-(* ------------------------------------------------------------------ VecReader, read_ref_at, the lean clone's point read.
-   These ignore the `updated` overlay by documentation: in-region only when every stored index is on disk. *)
-Definition not_expanded (c : rstate) : Prop := r_stored c <= len (r_disk c).
-
-Lemma read_elem_ok c i : i < len (r_disk c) -> clean (read_elem c i) = true /\ accesses_ok c (read_elem c i).
+(* collect_holed_range: position k of the result is the element of index from+k or nothing *)
+Theorem holed_range_good c from to : wf c ->
+  Forall2 (fun s k => good c s (V c k)) (holed_range c from to)
+          (seqN (N.min from (rlen c)) (N.to_nat (N.min to (rlen c) - N.min from (rlen c)))).
 Proof.
-  intros H. destruct (get_some (r_disk c) i H) as [v Hv]. rewrite (read_elem_on_disk c i v Hv).
-  cbn. split; auto. constructor; [|constructor]. unfold in_region; cbn. now apply eoff_in_region.
+  intros W. unfold holed_range.
+  induction (seqN _ _) as [|k ks IH]; cbn; constructor; auto. now apply get_any_good.
 Qed.
-
-Theorem vr_try_get_ok c i : not_expanded c -> clean (vr_try_get c i) = true /\ accesses_ok c (vr_try_get c i).
+(* read_at / read_at_once (repaired: buffered indices come from the pushed buffer) *)
+Theorem read_at_once_good c i : wf c -> dirty c = false -> good c (read_at_once c i) (opt_list (expected_one c i)).
 Proof.
-  unfold vr_try_get, not_expanded. intros H. destruct (N.ltb_spec i (r_stored c)).
-  - apply read_elem_ok. lia.
-  - cbn. split; auto. constructor.
+  intros W Dd. unfold read_at_once, expected_one. destruct (clean_no_hole c i Dd) as [Hh Hu].
+  destruct (N.ltb_spec i (rlen c)) as [Hl|Hl]; [|apply goodP_nil].
+  fold (V c i).
+  destruct (N.leb_spec (r_stored c) i) as [Hs|Hs].
+  - rewrite view_pushed by auto. rewrite nth_n_get.
+    destruct (get_some (r_pushed c) (i - r_stored c)) as [v ->]; [unfold rlen in Hl; lia|]. triv.
+  - rewrite view_stored_plain by auto. apply read_elem_good. now apply wf_on_disk.
 Qed.
-Theorem vr_get_ok c i : not_expanded c -> i < r_stored c -> clean (vr_get c i) = true /\ accesses_ok c (vr_get c i).
+(* in every wf state (overlays included) a buffered index never touches the map *)
+Theorem read_at_once_buffered c i : r_stored c <= i -> i < rlen c ->
+  good c (read_at_once c i) (opt_list (get (r_pushed c) (i - r_stored c))).
 Proof.
-  unfold vr_get, not_expanded. intros H Hi. replace (i <? r_stored c) with true by lia. apply read_elem_ok. lia.
+  intros Hs Hl. unfold read_at_once. replace (i <? rlen c) with true by lia.
+  replace (r_stored c <=? i) with true by lia. rewrite nth_n_get.
+  destruct (get_some (r_pushed c) (i - r_stored c)) as [v ->]; [unfold rlen in Hl; lia|]. triv.
 Qed.
-Theorem ro_collect_one_ok c i :
-  not_expanded c -> clean (ro_collect_one c i) = true /\ accesses_ok c (ro_collect_one c i).
-Proof.
-  unfold ro_collect_one, not_expanded. intros H. destruct (N.leb_spec (r_stored c) i).
-  - cbn. split; auto. constructor.
-  - apply read_elem_ok. lia.
-Qed.
-Theorem read_ref_at_ok c i : wf c -> clean (read_ref_at c i) = true /\ accesses_ok c (read_ref_at c i).
+Theorem read_ref_at_good c i : wf c ->
+  good c (read_ref_at c i)
+    (if is_hole c i then [] else if r_stored c <=? i then [] else
+       match upd_get c i with Some _ => [] | None => V c i end).
 Proof.
   intros W. unfold read_ref_at.
-  destruct (is_hole c i) eqn:Hh; [cbn; split; auto; constructor|].
-  destruct (N.leb_spec (r_stored c) i) as [Hs|Hs]; [cbn; split; auto; constructor|].
-  destruct (upd_get c i) eqn:Hu; [cbn; split; auto; constructor|].
+  destruct (is_hole c i) eqn:Hh; [apply goodP_nil|].
+  destruct (N.leb_spec (r_stored c) i) as [Hs|Hs]; [apply goodP_nil|].
+  destruct (upd_get c i) eqn:Hu; [apply goodP_nil|].
   pose proof (wf_on_disk c i W Hs Hh Hu) as Hd.
   assert (eoff c i <= region_len c) by (pose proof (eoff_in_region c i Hd); lia).
   replace (region_len c <? eoff c i) with false by lia.
-  now apply read_elem_ok.
+  rewrite view_stored_plain by auto. now apply read_elem_good.
 Qed.
 
-(* ------------------------------------------------------------------ the pointer scan (RawMmapSource) *)
-Lemma ptr_evs_some c i vs :
-  yields (ptr_evs c i (map Some vs)) = vs
-  /\ clean (ptr_evs c i (map Some vs)) = true
-  /\ fetches (ptr_evs c i (map Some vs)) = map (fun k => (eoff c k, r_sz c)) (seqN i (length vs)).
+(* VecReader / get_pushed_or_read_at / the lean clone's point read ignore the `updated` overlay by
+   documentation: inside the region exactly when every stored index is on disk *)
+Theorem vr_try_get_good c i : not_expanded c -> good c (vr_try_get c i) (if i <? r_stored c then D c i else []).
 Proof.
-  revert i; induction vs as [|v vs IH]; intros i; cbn; auto.
-  destruct (IH (i + 1)) as (Y & C & F). rewrite Y, C, F. auto.
+  unfold vr_try_get, not_expanded. intros H. destruct (N.ltb_spec i (r_stored c)); [|apply goodP_nil].
+  apply read_elem_good. lia.
+Qed.
+Theorem vr_get_good c i : not_expanded c -> i < r_stored c -> good c (vr_get c i) (D c i).
+Proof.
+  unfold vr_get, not_expanded. intros H Hi. replace (i <? r_stored c) with true by lia. apply read_elem_good. lia.
+Qed.
+Theorem get_pushed_or_read_good c i : not_expanded c -> i < rlen c ->
+  good c (get_pushed_or_read c i) (if r_stored c <=? i then opt_list (get (r_pushed c) (i - r_stored c)) else D c i).
+Proof.
+  unfold get_pushed_or_read. intros H Hi. destruct (N.leb_spec (r_stored c) i).
+  - rewrite nth_n_get. apply goodP_yields.
+  - now apply vr_get_good.
+Qed.
+Theorem ro_collect_one_good c i : not_expanded c -> good c (ro_collect_one c i) (if r_stored c <=? i then [] else D c i).
+Proof.
+  unfold ro_collect_one, not_expanded. intros H. destruct (N.leb_spec (r_stored c) i); [apply goodP_nil|].
+  apply read_elem_good. lia.
 Qed.
 
-Lemma disk_range_on_disk d f t : t <= len d -> disk_range d f t = map Some (slice f t d).
+(* ------------------------------------------------------------------ the two scan back-ends over stored data *)
+Theorem mmap_src_good c f t : f <= t -> t <= r_stored c -> not_expanded c ->
+  good c (mmap_src c (r_stored c) f t) (flat_map (D c) (seqN f (N.to_nat (t - f)))).
 Proof.
-  intros H. unfold disk_range. replace (N.to_nat (t - N.max f (len d))) with O by lia. cbn. apply app_nil_r.
+  unfold not_expanded, mmap_src. intros Hft Ht Hd.
+  replace (N.min f (r_stored c)) with f by lia. replace (N.min t (r_stored c)) with t by lia.
+  rewrite ptr_evs_scan. apply scan_range_good. intros k Hk. apply elem_on_disk. lia.
 Qed.
 
-Lemma slice_length {A} f t (l : list A) : f <= t -> t <= len l -> length (slice f t l) = N.to_nat (t - f).
+(* RawIoSource: seek, then refill / drain.  q = elements per buffer. *)
+Lemma io_bufsize_div c : 0 < r_sz c -> io_bufsize c / r_sz c = BUFFER_SIZE / r_sz c.
+Proof. intros. unfold io_bufsize. now rewrite N.div_mul by lia. Qed.
+Lemma min_mul_div a b s : 0 < s -> N.min (a * s) (b * s) / s = N.min a b.
 Proof.
-  intros. pose proof (len_slice f t l) as E. unfold len in *. lia.
+  intros. destruct (N.le_ge_cases a b).
+  - rewrite N.min_l by nia. rewrite N.min_l by auto. now rewrite N.div_mul by lia.
+  - rewrite N.min_r by nia. rewrite N.min_r by auto. now rewrite N.div_mul by lia.
+Qed.
+Lemma io_loop_good c t : wf c -> t <= len (r_disk c) ->
+  forall fuel i0, i0 <= t -> t - i0 <= N.of_nat fuel * (BUFFER_SIZE / r_sz c) ->
+  good c (io_loop fuel c (eoff c i0) (eoff c t)) (flat_map (D c) (seqN i0 (N.to_nat (t - i0)))).
+Proof.
+  intros W Ht. pose proof (wf_parts c W) as (Hsz & Hbs & _).
+  set (q := BUFFER_SIZE / r_sz c).
+  assert (Hq : 1 <= q) by (subst q; apply N.div_le_lower_bound; lia).
+  induction fuel as [|fuel IH]; intros i0 Hi Hf.
+  - replace (N.to_nat (t - i0)) with O by lia. apply goodP_nil.
+  - cbn [io_loop].
+    destruct (N.leb_spec (eoff c t) (eoff c i0)) as [Hle|Hlt].
+    + assert (t = i0) by (unfold eoff in Hle; nia). subst.
+      replace (N.to_nat (i0 - i0)) with O by lia. apply goodP_nil.
+    + assert (Hit : i0 < t) by (unfold eoff in Hlt; nia).
+      set (m := N.min (t - i0) q).
+      assert (Hblen : N.min (eoff c t - eoff c i0) (io_bufsize c) = m * r_sz c).
+      { unfold eoff, io_bufsize. fold q. subst m.
+        replace (HEADER_OFFSET + t * r_sz c - (HEADER_OFFSET + i0 * r_sz c)) with ((t - i0) * r_sz c) by nia.
+        destruct (N.le_ge_cases (t - i0) q); [rewrite !N.min_l by nia|rewrite !N.min_r by nia]; reflexivity. }
+      rewrite Hblen.
+      replace ((eoff c i0 - HEADER_OFFSET) / r_sz c) with i0
+        by (unfold eoff; replace (HEADER_OFFSET + i0 * r_sz c - HEADER_OFFSET) with (i0 * r_sz c) by lia;
+            now rewrite N.div_mul by lia).
+      rewrite N.div_mul by lia.
+      assert (Hm : 1 <= m) by (subst m; lia).
+      replace (m * r_sz c =? 0) with false by nia.
+      rewrite (seqN_split i0 (i0 + m) t) by (subst m; lia). rewrite flat_map_app.
+      apply goodP_fetch.
+      { unfold in_region, eoff, region_len; cbn. subst m. nia. }
+      apply goodP_app.
+      * rewrite (map_ev_scan _ i0).
+        replace (N.to_nat (i0 + m - i0)) with (N.to_nat (i0 + m - i0)) by reflexivity.
+        apply (scan_range_good (in_region c) (fun _ o => [ev_of o]) (D c) (r_disk c) i0 i0 (i0 + m)).
+        intros k Hk. assert (i0 + k < len (r_disk c)) by (subst m; lia).
+        destruct (get_some _ _ H) as [v Hv]. unfold D. rewrite Hv. triv.
+      * replace (eoff c i0 + m * r_sz c) with (eoff c (i0 + m)) by (unfold eoff; nia).
+        apply IH; subst m; nia.
+Qed.
+Theorem io_src_good c f t : wf c -> f <= t -> t <= r_stored c -> not_expanded c ->
+  good c (io_src c (r_stored c) f t) (flat_map (D c) (seqN f (N.to_nat (t - f)))).
+Proof.
+  unfold not_expanded, io_src. intros W Hft Ht Hd.
+  pose proof (wf_parts c W) as (Hsz & Hbs & _).
+  replace (N.min f (r_stored c)) with f by lia. replace (N.min t (r_stored c)) with t by lia.
+  assert (Hq : 1 <= BUFFER_SIZE / r_sz c) by (apply N.div_le_lower_bound; lia).
+  assert (Hloop : forall fuel, t - f <= N.of_nat fuel * (BUFFER_SIZE / r_sz c) ->
+                  good c (io_loop fuel c (eoff c f) (eoff c t)) (flat_map (D c) (seqN f (N.to_nat (t - f)))))
+    by (intros; apply io_loop_good; auto; lia).
+  assert (Hfuel : t - f <= N.of_nat (S (N.to_nat ((eoff c t - eoff c f) / N.max 1 (io_bufsize c)) + 1))
+                           * (BUFFER_SIZE / r_sz c)).
+  { set (q := BUFFER_SIZE / r_sz c) in *.
+    assert (io_bufsize c = q * r_sz c) by reflexivity.
+    replace (eoff c t - eoff c f) with ((t - f) * r_sz c) by (unfold eoff; nia).
+    rewrite H. replace (N.max 1 (q * r_sz c)) with (q * r_sz c) by nia.
+    rewrite N.div_mul_cancel_r by lia.
+    pose proof (N.div_mod' (t - f) q). pose proof (N.mod_lt (t - f) q ltac:(lia)). nia. }
+  destruct (N.ltb_spec (eoff c f) (eoff c t)) as [Hlt|Hge].
+  - cbn [app]. apply goodP_fetch; [unfold in_region, eoff, region_len; cbn; nia|]. now apply Hloop.
+  - cbn [app]. now apply Hloop.
+Qed.
+Theorem fold_source_good c f t : wf c -> f <= t -> t <= r_stored c -> not_expanded c ->
+  good c (fold_source c (r_stored c) f t) (flat_map (D c) (seqN f (N.to_nat (t - f)))).
+Proof.
+  intros. unfold fold_source. replace (t <? f) with false by lia.
+  destruct (r_xo c <? (t - f) * r_sz c); [now apply io_src_good|now apply mmap_src_good].
 Qed.
 
-Theorem mmap_src_ok c from to :
-  not_expanded c ->
-  yields (mmap_src c (r_stored c) from to) = slice (N.min from (r_stored c)) (N.min to (r_stored c)) (r_disk c)
-  /\ clean (mmap_src c (r_stored c) from to) = true
-  /\ accesses_ok c (mmap_src c (r_stored c) from to).
+(* in a state without overlays the stored part of the logical contents is the disk *)
+Lemma clean_V_D c f n : dirty c = false -> f + N.of_nat n <= r_stored c ->
+  flat_map (D c) (seqN f n) = flat_map (V c) (seqN f n).
 Proof.
-  unfold not_expanded, mmap_src. intros H.
+  intros Dd H. apply flat_map_ext_in. intros k Hk. apply in_seqN in Hk.
+  destruct (clean_no_hole c k Dd). symmetry. apply view_stored_plain; auto. lia.
+Qed.
+
+(* ------------------------------------------------------------------ the pushed tail *)
+Lemma pushed_tail_good c a b i : dirty c = false -> i = a + r_stored c -> b <= len (r_pushed c) ->
+  good c (map Yield (slice a b (r_pushed c))) (flat_map (V c) (seqN i (N.to_nat (b - a)))).
+Proof.
+  intros Dd -> Hb. rewrite (slice_scan _ a b (a + r_stored c)). apply scan_range_good.
+  intros k Hk. destruct (clean_no_hole c (a + r_stored c + k) Dd) as [Hh _].
+  rewrite view_pushed by (auto; lia).
+  replace (a + r_stored c + k - r_stored c) with (a + k) by lia. apply goodP_yields.
+Qed.
+
+(* ------------------------------------------------------------------ fold_dirty / try_fold_dirty *)
+Lemma dirty_elem_good c k : wf c -> k < r_stored c ->
+  good c (if is_hole c k then [] else match upd_get c k with
+                                      | Some u => [Yield u]
+                                      | None => [Fetch (eoff c k) (r_sz c); ev_of (get (r_disk c) k)] end) (V c k).
+Proof.
+  intros W Hk. unfold V, view. rewrite nth_n_get. replace (k <? r_stored c) with true by lia.
+  destruct (is_hole c k) eqn:Hh; [apply goodP_nil|].
+  destruct (upd_get c k) eqn:Hu; [triv|]. apply elem_on_disk. now apply wf_on_disk.
+Qed.
+Theorem fold_dirty_good c f t : wf c -> f <= t -> t <= rlen c ->
+  good c (fold_dirty c f t) (flat_map (V c) (seqN f (N.to_nat (t - f)))).
+Proof.
+  intros W Hft Ht. unfold fold_dirty. replace (t <? f) with false by lia.
+  set (st := N.min t (r_stored c)). set (pf := N.max f (r_stored c)).
+  rewrite (seqN_split f (N.max f st) t) by lia. rewrite flat_map_app.
+  apply goodP_app.
+  - rewrite dirty_stored_scan.
+    replace (N.to_nat (N.max f st - f)) with (N.to_nat (st - f)) by lia.
+    apply scan_range_good. intros k Hk. apply dirty_elem_good; auto. subst st. lia.
+  - destruct (N.ltb_spec pf t) as [Hp|Hp].
+    + rewrite dirty_pushed_scan.
+      replace (N.max f st) with pf by (subst st pf; lia).
+      replace (N.to_nat (t - pf)) with (N.to_nat (t - r_stored c - (pf - r_stored c))) by (subst pf; lia).
+      apply scan_range_good. intros k Hk.
+      destruct (is_hole c (pf + k)) eqn:Hh.
+      * unfold V, view. rewrite Hh. apply goodP_nil.
+      * rewrite view_pushed by (auto; subst pf; lia).
+        replace (pf - r_stored c + k) with (pf + k - r_stored c) by (subst pf; lia). apply goodP_yields.
+    + replace (N.to_nat (t - N.max f st)) with O by (subst st pf; lia). apply goodP_nil.
+Qed.
+
+(* ------------------------------------------------------------------ read_into_at *)
+Lemma range_nil c f t : t <= f -> flat_map (V c) (seqN f (N.to_nat (t - f))) = [].
+Proof. intros. replace (N.to_nat (t - f)) with O by lia. reflexivity. Qed.
+
+Lemma pushed_slice_good c f t : dirty c = false -> f <= t -> t <= rlen c ->
+  good c (pushed_slice c f t)
+    (flat_map (V c) (seqN (N.max f (r_stored c)) (N.to_nat (t - N.max f (r_stored c))))).
+Proof.
+  intros Dd Hft Ht. unfold pushed_slice, rlen in *.
+  destruct (N.ltb_spec (r_stored c) t) as [Hs|Hs].
+  - replace (N.min (t - r_stored c) (len (r_pushed c))) with (t - r_stored c) by lia.
+    replace (t - r_stored c <? N.max f (r_stored c) - r_stored c) with false by lia.
+    replace (N.to_nat (t - N.max f (r_stored c)))
+      with (N.to_nat (t - r_stored c - (N.max f (r_stored c) - r_stored c))) by lia.
+    apply pushed_tail_good; auto; lia.
+  - replace (N.to_nat (t - N.max f (r_stored c))) with O by lia. apply goodP_nil.
+Qed.
+
+Theorem read_into_at_good c from to : wf c -> good c (read_into_at c from to) (expected c from to).
+Proof.
+  intros W. rewrite expected_eq. unfold read_into_at.
+  set (f := N.min from (rlen c)). set (t := N.min to (rlen c)).
+  assert (Ht : t <= rlen c) by (subst t; lia).
+  destruct (N.leb_spec t f) as [Hle|Hlt]; [rewrite range_nil by auto; apply goodP_nil|].
+  destruct (dirty c) eqn:Dd; [apply fold_dirty_good; auto; lia|].
+  pose proof (clean_not_expanded c W Dd) as Hne. unfold not_expanded in Hne.
+  rewrite (seqN_split f (N.max f (N.min t (r_stored c))) t) by lia. rewrite flat_map_app.
+  apply goodP_app.
+  - destruct (N.ltb_spec f (r_stored c)) as [Hs|Hs].
+    + set (st := N.min t (r_stored c)).
+      replace (N.to_nat (N.max f st - f)) with (N.to_nat (st - f)) by lia.
+      rewrite <- clean_V_D by (auto; subst st; lia).
+      destruct (r_native c).
+      * apply goodP_fetch.
+        { unfold in_region, eoff, region_len; cbn. subst st. nia. }
+        rewrite (map_ev_scan _ f). apply scan_range_good. intros k Hk.
+        assert (f + k < len (r_disk c)) by (subst st; lia).
+        destruct (get_some _ _ H) as [v Hv]. unfold D. rewrite Hv. triv.
+      * apply fold_source_good; auto; subst st; lia.
+    + replace (N.to_nat (N.max f (N.min t (r_stored c)) - f)) with O by lia. apply goodP_nil.
+  - destruct (N.le_gt_cases t (r_stored c)) as [Hts|Hts].
+    + unfold pushed_slice. replace (r_stored c <? t) with false by lia.
+      replace (N.to_nat (t - N.max f (N.min t (r_stored c)))) with O by lia. apply goodP_nil.
+    + replace (N.max f (N.min t (r_stored c))) with (N.max f (r_stored c)) by lia.
+      apply pushed_slice_good; auto; lia.
+Qed.
+
+(* ------------------------------------------------------------------ fold_range_at / try_fold_range_at *)
+Lemma fold_pushed_good c f t : dirty c = false -> f <= t -> t <= rlen c -> r_stored c < t ->
+  good c (fold_pushed c f t) (flat_map (V c) (seqN (N.max f (r_stored c)) (N.to_nat (t - N.max f (r_stored c))))).
+Proof.
+  intros Dd Hft Ht Hs. unfold fold_pushed, rlen in *.
+  destruct (N.leb_spec t (N.max f (r_stored c))) as [Hle|Hlt].
+  - replace (N.to_nat (t - N.max f (r_stored c))) with O by lia. apply goodP_nil.
+  - replace (N.min (t - r_stored c) (len (r_pushed c))) with (t - r_stored c) by lia.
+    replace (N.to_nat (t - N.max f (r_stored c)))
+      with (N.to_nat (t - r_stored c - (N.max f (r_stored c) - r_stored c))) by lia.
+    apply pushed_tail_good; auto; lia.
+Qed.
+Lemma try_fold_pushed_eq c f t : f <= t -> t <= rlen c -> try_fold_pushed c f t = fold_pushed c f t.
+Proof.
+  intros Hft Ht. unfold try_fold_pushed, fold_pushed, rlen in *.
+  destruct (t <=? N.max f (r_stored c)) eqn:E; auto.
+  replace (N.min (t - r_stored c) (len (r_pushed c)) <? N.max f (r_stored c) - r_stored c) with false by lia.
+  reflexivity.
+Qed.
+
+Lemma fold_range_gen_good pp c from to : wf c ->
+  (forall f t, f <= t -> t <= rlen c -> pp c f t = fold_pushed c f t) ->
+  good c (fold_range_gen pp c from to) (expected c from to).
+Proof.
+  intros W Hpp. rewrite expected_eq. unfold fold_range_gen.
+  set (f := N.min from (rlen c)). set (t := N.min to (rlen c)).
+  assert (Ht : t <= rlen c) by (subst t; lia).
+  destruct (N.leb_spec t f) as [Hle|Hlt]; [rewrite range_nil by auto; apply goodP_nil|].
+  destruct (dirty c) eqn:Dd; [apply fold_dirty_good; auto; lia|].
+  pose proof (clean_not_expanded c W Dd) as Hne.
+  destruct (N.leb_spec t (r_stored c)) as [Hts|Hts].
+  - rewrite <- clean_V_D by (auto; lia). apply fold_source_good; auto; lia.
+  - rewrite (seqN_split f (N.max f (r_stored c)) t) by lia. rewrite flat_map_app.
+    apply goodP_app.
+    + destruct (N.ltb_spec f (r_stored c)) as [Hs|Hs].
+      * replace (N.max f (r_stored c)) with (r_stored c) by lia.
+        rewrite <- clean_V_D by (auto; lia). apply fold_source_good; auto; lia.
+      * replace (N.to_nat (N.max f (r_stored c) - f)) with O by lia. apply goodP_nil.
+    + rewrite Hpp by lia. apply fold_pushed_good; auto; lia.
+Qed.
+Theorem fold_range_at_good c from to : wf c -> good c (fold_range_at c from to) (expected c from to).
+Proof. intros. apply fold_range_gen_good; auto. Qed.
+Theorem try_fold_range_at_good c from to : wf c -> good c (try_fold_range_at c from to) (expected c from to).
+Proof. intros. apply fold_range_gen_good; auto. intros. now apply try_fold_pushed_eq. Qed.
+
+(* ------------------------------------------------------------------ stored-only scans and the lean clone *)
+Theorem fold_stored_good io c from to : wf c -> not_expanded c ->
+  good c ((if io : bool then fold_stored_io else fold_stored_mmap) c from to)
+    (flat_map (D c) (seqN (N.min from (r_stored c))
+                          (N.to_nat (N.min to (r_stored c) - N.min from (r_stored c))))).
+Proof.
+  intros W Hne.
   set (f := N.min from (r_stored c)). set (t := N.min to (r_stored c)).
-  assert (Ht : t <= len (r_disk c)) by (subst t; lia).
-  rewrite (disk_range_on_disk _ f t Ht).
-  destruct (ptr_evs_some c f (slice f t (r_disk c))) as (Y & C & F).
-  rewrite Y, C. repeat split; auto.
-  unfold accesses_ok. rewrite F. apply Forall_forall. intros a Ha.
-  apply in_map_iff in Ha as (k & <- & Hk). apply in_seqN in Hk.
-  unfold in_region; cbn. apply eoff_in_region.
-  pose proof (len_slice f t (r_disk c)) as L. unfold len in L at 1. lia.
-Qed.
-
-(* the stored part of the logical contents of a state without overlays is the disk *)
-Theorem fold_stored_mmap_ok c from to :
-  not_expanded c ->
-  yields (fold_stored_mmap c from to) = slice (N.min from (r_stored c)) (N.min to (r_stored c)) (r_disk c)
-  /\ clean (fold_stored_mmap c from to) = true
-  /\ accesses_ok c (fold_stored_mmap c from to).
-Proof.
-  intros H. unfold fold_stored_mmap.
-  set (f := N.min from (r_stored c)). set (t := N.min to (r_stored c)).
+  assert (forall s, (t <=? f) = false -> good c s (flat_map (D c) (seqN f (N.to_nat (t - f)))) ->
+                    good c (if t <=? f then [] else s) (flat_map (D c) (seqN f (N.to_nat (t - f)))))
+    by (intros s -> ?; auto).
   destruct (N.leb_spec t f) as [Hle|Hlt].
-  - cbn. repeat split; try constructor.
-    unfold slice, take. replace (N.to_nat (t - f)) with O by lia. reflexivity.
-  - pose proof (mmap_src_ok c f t H) as M.
-    replace (N.min f (r_stored c)) with f in M by (subst f; lia).
-    replace (N.min t (r_stored c)) with t in M by (subst t; lia). exact M.
+  - replace (N.to_nat (t - f)) with O by lia.
+    destruct io; unfold fold_stored_io, fold_stored_mmap; fold f t; replace (t <=? f) with true by lia; apply goodP_nil.
+  - destruct io; unfold fold_stored_io, fold_stored_mmap; fold f t; replace (t <=? f) with false by lia.
+    + apply io_src_good; auto; subst f t; lia.
+    + apply mmap_src_good; auto; subst f t; lia.
+Qed.
+Theorem ro_read_into_good c from to : wf c -> not_expanded c ->
+  good c (ro_read_into c from to)
+    (flat_map (D c) (seqN (N.min from (r_stored c))
+                          (N.to_nat (N.min to (r_stored c) - N.min from (r_stored c))))).
+Proof.
+  intros W Hne. unfold ro_read_into.
+  set (f := N.min from (r_stored c)). set (t := N.min to (r_stored c)).
+  destruct (N.leb_spec t f) as [Hle|Hlt]; [replace (N.to_nat (t - f)) with O by lia; apply goodP_nil|].
+  unfold not_expanded in Hne.
+  destruct (r_native c).
+  - apply goodP_fetch.
+    { unfold in_region, eoff, region_len; cbn. subst f t. nia. }
+    rewrite (map_ev_scan _ f). apply scan_range_good. intros k Hk.
+    assert (f + k < len (r_disk c)) by (subst f t; lia).
+    destruct (get_some _ _ H) as [v Hv]. unfold D. rewrite Hv. triv.
+  - apply fold_source_good; auto; subst f t; lia.
+Qed.
+Theorem ro_fold_range_good c from to : wf c -> not_expanded c ->
+  good c (ro_fold_range c from to)
+    (flat_map (D c) (seqN (N.min from (r_stored c))
+                          (N.to_nat (N.min to (r_stored c) - N.min from (r_stored c))))).
+Proof.
+  intros W Hne. unfold ro_fold_range.
+  set (f := N.min from (r_stored c)). set (t := N.min to (r_stored c)).
+  destruct (N.leb_spec t f) as [Hle|Hlt]; [replace (N.to_nat (t - f)) with O by lia; apply goodP_nil|].
+  apply fold_source_good; auto; subst f t; lia.
 Qed.
 
-(* ------------------------------------------------------------------ early exit *)
+(* ------------------------------------------------------------------ early exit (try_fold with a failing closure) *)
 Lemma cut_clean k s : clean s = true -> clean (cut k s) = true.
 Proof.
   revert k; induction s as [|e s IH]; intros k H; cbn; auto.
@@ -203,40 +598,38 @@ Proof.
   - destruct k; cbn; auto. intros []. eauto.
   - destruct k; cbn; auto. intros []. eauto.
 Qed.
-(* an early-exiting closure never makes a path fetch anything the full run would not fetch *)
-Theorem cut_accesses_ok c k s : accesses_ok c s -> accesses_ok c (cut k s).
+Lemma cut_yields k s : clean s = true -> yields (cut k s) = firstn (S k) (yields s).
 Proof.
-  unfold accesses_ok. rewrite !Forall_forall. intros H a Ha. apply H. eapply cut_fetches_incl; eauto.
+  revert k; induction s as [|e s IH]; intros k C; cbn; auto.
+  destruct e; cbn in *; try discriminate; auto.
+  destruct k; cbn; [now destruct (yields s)|]. now rewrite IH.
+Qed.
+(* an early-exiting closure sees a prefix of the full run and never makes a path fetch more *)
+Theorem cut_good (P : acc -> Prop) k s ys : goodP P s ys -> goodP P (cut k s) (firstn (S k) ys).
+Proof.
+  intros (Y & C & F). repeat split.
+  - rewrite cut_yields by auto. now rewrite Y.
+  - now apply cut_clean.
+  - rewrite Forall_forall in *. intros a Ha. apply F. eapply cut_fetches_incl; eauto.
+Qed.
+(* the value try_fold_range_at returns for the closure "accept k elements, then fail" *)
+Theorem try_run_good (P : acc -> Prop) k s ys : goodP P s ys ->
+  fst (try_run k s) = if k <? len ys then TEarly (take k ys) else TOk ys.
+Proof.
+  intros G. unfold try_run. rewrite (goodP_run P _ _ (cut_good P (N.to_nat k) s ys G)). cbn [fst].
+  assert (L : len (firstn (S (N.to_nat k)) ys) = N.min (k + 1) (len ys))
+    by (unfold len; rewrite firstn_length; lia).
+  destruct (N.ltb_spec k (len ys)) as [Hlt|Hge].
+  - replace (k <? len (firstn (S (N.to_nat k)) ys)) with true by lia.
+    f_equal. unfold take. rewrite firstn_firstn. f_equal. lia.
+  - replace (k <? len (firstn (S (N.to_nat k)) ys)) with false by lia.
+    f_equal. apply firstn_all2. unfold len in Hge. lia.
 Qed.
 
 (* ------------------------------------------------------------------ refutations: concrete witnesses (vm_compute) *)
 Definition mk (sz : N) (native : bool) (disk : list N) (stored : N) (pushed holes : list N) (upd : list (N * N)) : rstate :=
   {| r_sz := sz; r_native := native; r_xo := MMAP_CROSSOVER_BYTES; r_disk := disk; r_stored := stored;
-     r_pushed := pushed; r_holes := holes; r_upd := upd; r_updroot := match upd with [] => false | _ => true end |}.
-
-(* finding 6 and its silent variant: p:4 w d:1 ; read_sorted_at([3]) panics, read_sorted_at([2]) returns element 3 *)
-Definition w_holed : rstate := mk 8 true [10; 11; 12; 13] 4 [] [1] [].
-Lemma w_holed_wf : wf w_holed. Proof. reflexivity. Qed.
-Theorem read_sorted_refuted_panic : wf w_holed /\ fst (read_sorted (raw_rvec w_holed) [3]) = RPanic.
-Proof. split; [exact w_holed_wf | vm_compute; reflexivity]. Qed.
-Theorem read_sorted_refuted_wrong :
-  wf w_holed /\ fst (read_sorted (raw_rvec w_holed) [2]) = ROk [13] /\ expected_one w_holed 2 = Some 12.
-Proof. split; [exact w_holed_wf | vm_compute; auto]. Qed.
-Theorem cursor_fold_refuted_hang :
-  wf w_holed /\ fst (fst (cursor_fold (raw_rvec w_holed) cursor_new 4)) = CHang.
-Proof. split; [exact w_holed_wf | vm_compute; reflexivity]. Qed.
-
-(* fold_dirty: p:3 w p:3 u:1 ; collect_range(4, 6) panics (BTreeMap::range start > end) *)
-Definition w_past : rstate := mk 8 true [10; 11; 12] 3 [13; 14; 15] [] [(1, 21)].
-Theorem fold_dirty_refuted_panic :
-  wf w_past /\ fst (run (read_into_at w_past 4 6)) = RPanic /\ expected w_past 4 6 = [14; 15].
-Proof. split; [reflexivity | vm_compute; auto]. Qed.
-
-(* read_at_once on a buffered index: p:3 w p:3 ; read_at_once(4) fetches [64, 72) of a 56-byte region *)
-Definition w_buffered : rstate := mk 8 true [10; 11; 12] 3 [13; 14; 15] [] [].
-Theorem read_at_once_refuted :
-  wf w_buffered /\ region_len w_buffered = 56 /\ run (read_at_once w_buffered 4) = (RGarbage, [(64, 8)]).
-Proof. split; [reflexivity | vm_compute; auto]. Qed.
+     r_pushed := pushed; r_holes := holes; r_upd := upd |}.
 
 (* after a rollback that leaves stored_len above the on-disk length the lean clone and VecReader read
    past the region: disk [10;11], stored_len 4, indices 2 and 3 in the overlay *)
@@ -246,22 +639,8 @@ Theorem clone_after_rollback_refuted :
   /\ run (ro_read_into w_expanded 0 4) = (RGarbage, [(32, 32)])
   /\ run (vr_try_get w_expanded 3) = (RGarbage, [(56, 8)]).
 Proof. split; [reflexivity | vm_compute; auto]. Qed.
-(* the read-write paths of the same state stay inside the region and return the logical contents *)
-Theorem expanded_rw_example :
-  run (read_into_at w_expanded 0 4) = (ROk [10; 11; 12; 13], [(32, 8); (40, 8)])
+(* hypotheses are satisfiable: the read-write paths of the same state *)
+Example expanded_rw_example :
+  wf w_expanded /\ run (read_into_at w_expanded 0 4) = (ROk [10; 11; 12; 13], [(32, 8); (40, 8)])
   /\ expected w_expanded 0 4 = [10; 11; 12; 13].
-Proof. vm_compute; auto. Qed.
-
-(* CachedVec keyed on (len, version): p:3 w ; cached read ; u:1 ; cached read returns the old snapshot *)
-Definition w_before : rstate := mk 8 true [10; 11; 12] 3 [] [] [].
-Definition w_after : rstate := mk 8 true [10; 11; 12] 3 [] [] [(1, 21)].
-Theorem cached_refuted_stale :
-  exists k, snd (fst (materialize (raw_rvec w_before) None)) = k
-  /\ fst (fst (materialize (raw_rvec w_after) k)) = ROk [10; 11; 12]
-  /\ expected w_after 0 3 = [10; 21; 12].
-Proof. eexists. vm_compute. auto. Qed.
-(* a snapshot holds the non-deleted elements only: index-addressed reads through it are shifted *)
-Theorem cached_refuted_shift :
-  fst (fst (materialize (raw_rvec w_holed) None)) = ROk [10; 12; 13]
-  /\ cached_one [10; 12; 13] 1 = Some 12 /\ expected_one w_holed 1 = None.
-Proof. vm_compute. auto. Qed.
+Proof. split; [reflexivity | vm_compute; auto]. Qed.
